@@ -337,6 +337,146 @@ def _subst(atom, old, new):
     return "".join(out)
 
 
+PURE_GETTERS = {"m_queue_len", "m_map_len", "m_list_len", "m_bst_len", "m_stack_len", "m_mod_is"}
+
+
+def pure_local_defs(fn):
+    """{local: defining expression} for the locals of fn that have exactly one definition, whose address is never taken and whose
+    definition reads only variables, fields, constants and the library's pure getters."""
+    c = getattr(fn, "_pure_defs", None)
+    if c is not None:
+        return c
+    defs, bad = {}, set()
+    for ev in fn.events():
+        if ev.kind in ("decl", "assign", "incdec") and ev.lhs is not None and strip(ev.lhs)["k"] == "var" and strip(ev.lhs).get("vk") in ("local", None):
+            n = S(ev.lhs)
+            if ev.kind == "incdec" or (ev.kind == "assign" and ev.e.get("op") != "=") or n in defs:
+                bad.add(n)
+            elif ev.rhs is not None:
+                defs[n] = ev.rhs
+        for x in lm.walk(ev.e):
+            if isinstance(x, dict) and x.get("k") == "un" and x.get("op") == "&" and strip(x["e"]) is not None and strip(x["e"]).get("k") == "var":
+                bad.add(strip(x["e"])["name"])
+    out = {}
+    for n, r in defs.items():
+        if n in bad:
+            continue
+        if any(isinstance(x, dict) and ((x.get("k") == "call" and x.get("callee") not in PURE_GETTERS) or
+                                        (x.get("k") == "un" and x.get("op") in ("++", "--")) or x.get("k") == "assign")
+               for x in lm.walk(r)):
+            continue
+        out[n] = r
+    fn._pure_defs = out
+    fn._pure_def_events = {S(ev.lhs): ev for ev in fn.events() if ev.kind in ("decl", "assign") and ev.lhs is not None and S(ev.lhs) in out
+                           and ev.rhs is not None}
+    return out
+
+
+def stable_S(P, cg, fn, at, e):
+    """Canonical string of expression e at event `at`, with single-definition locals replaced by their defining expressions where that
+    is still exact at `at`: between the definition and `at` this function does not store to a field the definition loads and calls
+    nothing that may (transitively) store to such a field.  `m_list_t *const threads = pool->threads; … m_list_insert(threads, th)` reads
+    as `m_list_insert(pool->threads, th)`; a cached value that can have gone stale is left alone."""
+    return stable_subst(P, cg, fn, at, S(e))
+
+
+def stable_atoms(P, cg, fn, at, facts):
+    """The facts, plus each one re-written through single-definition locals where that is exact at `at` (see stable_S)."""
+    out = set(facts or ())
+    for (a, p) in list(out):
+        if a.startswith("@cond|"):
+            continue
+        a2 = stable_subst(P, cg, fn, at, a)
+        if a2 != a:
+            out.add((a2, p))
+    return out
+
+
+def stable_subst(P, cg, fn, at, s):
+    defs = pure_local_defs(fn)
+    for _ in range(4):
+        changed = False
+        for n, d in defs.items():
+            if not lm._mentions(s, n):
+                continue
+            dev = fn._pure_def_events.get(n)
+            if dev is None or not fn.ev_dominates(dev, at):
+                continue
+            loads = {(x.get("rec"), x.get("field")) for x in lm.walk(d) if isinstance(x, dict) and x.get("k") == "member"}
+            getters = [x for x in lm.walk(d) if isinstance(x, dict) and x.get("k") == "call"]
+            writers = set()
+            for (rec, fld) in loads:
+                for w in P.all_events():
+                    if w.kind in ("assign", "incdec") and w.lhs is not None:
+                        l = strip(w.lhs)
+                        if l is not None and l.get("k") == "member" and l.get("field") == fld:
+                            writers.add(w.fn.key)
+            ok = True
+            for x in events_between(fn, dev, at):
+                if x.kind in ("assign", "incdec") and x.lhs is not None:
+                    l = strip(x.lhs)
+                    if l is not None and l.get("k") == "member" and (l.get("rec"), l.get("field")) in loads:
+                        ok = False
+                    if l is not None and l.get("k") == "var" and lm._mentions(S(d), l.get("name", "")):
+                        ok = False
+                elif x.kind == "call":
+                    if getters and not (x.callee in PURE_GETTERS):
+                        if x.callee is None or cg.callees_of_event(x):
+                            ok = False       # a getter's answer may change across any library call
+                    elif writers and cg.event_may_reach(x, cg.may_reach_set(lambda n_, w_=frozenset(writers): n_ in w_)):
+                        ok = False
+                if not ok:
+                    break
+            if ok:
+                rs = S(d)
+                r0 = strip(d)
+                if r0["k"] in ("bin", "cond") and not (rs.startswith("(") and rs.endswith(")")):
+                    rs = "(%s)" % rs
+                s2 = _subst(s, n, rs)
+                if s2 != s:
+                    s, changed = s2, True
+        if not changed:
+            break
+    return s
+
+
+def resolve_atoms(fn, items, rounds=5):
+    """Atoms over locals, read through the locals' definitions (value at definition time — the same reading the copy propagation of
+    boolean locals gives): `owner == &mod->tb` with `owner = src->userptr` also yields `src->userptr == &mod->tb`; a boolean local that
+    is known true yields the atoms of its defining condition.  Returns the originals plus everything derived."""
+    import re as _re
+    defs = pure_local_defs(fn)
+    out = set(items)
+    if not defs:
+        return out
+    work = list(out)
+    for _ in range(rounds):
+        nxt = []
+        for (a, p) in work:
+            if a.startswith("@cond|"):
+                continue
+            if a in defs:
+                for ap in atoms(defs[a], p):
+                    if ap not in out:
+                        out.add(ap)
+                        nxt.append(ap)
+                continue
+            for n in set(_re.findall(r"[A-Za-z_]\w*", a)):
+                if n in defs and lm._mentions(a, n):
+                    r = strip(defs[n])
+                    rs = S(r)
+                    if r["k"] in ("bin", "cond") and not (rs.startswith("(") and rs.endswith(")")):
+                        rs = "(%s)" % rs
+                    a2 = _subst(a, n, rs)
+                    if a2 != a and (a2, p) not in out:
+                        out.add((a2, p))
+                        nxt.append((a2, p))
+        if not nxt:
+            break
+        work = nxt
+    return out
+
+
 def facts_at(fn, ev, kill=None, cache=None):
     key = (fn.key, id(kill))
     if cache is not None and key in cache:
@@ -532,6 +672,31 @@ def path_assumes(path):
     for (_b, at) in path:
         for (a, p) in at:
             d.setdefault(a, p)
+    return d
+
+
+def path_assumes_aliased(fn, path):
+    """path_assumes, plus: a test of a local that at that moment holds a copy of an lvalue (`ev = tmp->ev; if (ev) …`) is also a test of
+    that lvalue.  The copy relation is followed along the path and dropped when either side is assigned."""
+    d = {}
+    copies = {}          # local -> canonical string of the lvalue it was copied from
+    for (bid, at) in path:
+        for ev in fn.blocks[bid].events:
+            if ev.kind in ("decl", "assign", "incdec") and ev.lhs is not None:
+                lv = S(ev.lhs)
+                for x in [x for x, y in copies.items() if x == lv or lm._mentions(y, lv) or y == lv]:
+                    del copies[x]
+                if ev.kind in ("decl", "assign") and (ev.kind == "decl" or ev.e.get("op") == "=") and ev.rhs is not None \
+                        and strip(ev.lhs)["k"] == "var" and strip(ev.lhs).get("vk") in ("local", None):
+                    r = strip(ev.rhs)
+                    if r is not None and "cv" not in r and r["k"] in ("member", "un", "var") and (r["k"] != "un" or r["op"] == "*") \
+                            and r.get("vk") not in ("enum", "func"):
+                        copies[lv] = S(r)
+        for (a, p) in at:
+            d.setdefault(a, p)
+            for x, y in copies.items():
+                if lm._mentions(a, x):
+                    d.setdefault(_subst(a, x, y), p)
     return d
 
 
@@ -871,12 +1036,13 @@ def path_final_const(f, path, lvalue):
     when the stored value is not a constant."""
     ints = {}
     stored, val = False, None
+    asm = path_assumes(path)         # a conditional expression `c ? A : B` is folded by the arm the path took
     for ev in path_events(f, path):
         if ev.kind not in ("decl", "assign") or ev.lhs is None or ev.rhs is None:
             continue
         name = S(ev.lhs)
         op = ev.e.get("op", "=") if ev.kind == "assign" else "="
-        rv = const_eval(ev.rhs, ints, {})
+        rv = const_eval(ev.rhs, ints, asm)
         isvar = strip(ev.lhs)["k"] == "var"
         cur = ints.get(name) if isvar else (val if (name == lvalue or (isinstance(lvalue, (set, frozenset)) and name in lvalue)) else None)
         if op == "=":
